@@ -141,6 +141,7 @@ type Exec struct {
 	panicking   bool
 	topFrame    *Frame
 	panicOuts   []Outcome
+	retFrames   map[*State]*Frame
 }
 
 type deferred struct {
@@ -472,6 +473,12 @@ func (ex *Exec) execFrom(st *State, fr *Frame, b *ssa.BasicBlock, idx int) []Out
 			rets := make([]Value, len(x.Results))
 			for j, r := range x.Results {
 				rets[j] = ex.operand(st, fr, r)
+			}
+			if fr.depth == 0 {
+				if ex.retFrames == nil {
+					ex.retFrames = map[*State]*Frame{}
+				}
+				ex.retFrames[st] = fr // the path's own frame (source-level names) for the postconditions
 			}
 			return []Outcome{{st, rets}}
 		case *ssa.Panic:
